@@ -48,6 +48,14 @@ pub type Names = std::collections::HashMap<String, usize>;
 
 /// Do all operand names of an instruction / derivs line exist?  (Dangling names only occur in
 /// shrunk replays; such a line is answered `bad-ref` and ignored, by the model too.)
+/// index of the first token that may be an operand name
+pub fn refs_from(toks: &[&str]) -> usize {
+    match toks[0] {
+        "derivs" | "tryderivs" | "show" | "reset" => 1,
+        _ => 2,
+    }
+}
+
 pub fn refs_ok(names: &Names, toks: &[&str], from: usize) -> bool {
     toks.iter().skip(from).all(|t| {
         t.contains('=')
@@ -265,7 +273,7 @@ impl ProgGen {
         Some(k)
     }
 
-    fn push(&mut self, is_var: bool, dep: bool, bits: u32, tbits: u32, parents: Vec<usize>, wbits: u32, tape: Option<usize>) {
+    pub fn push(&mut self, is_var: bool, dep: bool, bits: u32, tbits: u32, parents: Vec<usize>, wbits: u32, tape: Option<usize>) {
         self.uses.push(0);
         self.is_var.push(is_var);
         self.dep.push(dep);
@@ -434,6 +442,59 @@ impl ProgGen {
         }
     }
 
+    /// `clone r<k> r<a>`: a copy of an earlier result under a new name
+    pub fn clone_instr(&mut self, g: &mut Gen, tape: Option<usize>) -> Option<String> {
+        let k = self.len();
+        let a = self.operand(g, tape)?;
+        g.count(&format!("{}.clone.{}", self.prefix, if self.dep[a] { "variable" } else { "constant" }));
+        let (dep, bits, tbits, t) = (self.dep[a], self.bits[a], self.tbits[a], self.tape[a]);
+        self.push(false, dep, bits, tbits + 1, vec![a], 1, t);
+        Some(format!("clone r{} r{}", k, a))
+    }
+
+    /// a comparison of two earlier results (every operator x form, every variable/constant
+    /// pairing, sometimes a result with itself) or a `show` line; creates nothing
+    pub fn emit_observation(&self, g: &mut Gen) {
+        let n = self.len();
+        let live: Vec<usize> = (0..n).filter(|&k| self.allow_stale || !self.stale[k]).collect();
+        if live.is_empty() {
+            return;
+        }
+        let p = self.prefix;
+        if g.rng.chance(1, 5) {
+            let a = *g.rng.pick(&live);
+            g.count(&format!("{}.show.{}", p, if self.dep[a] { "variable" } else { "constant" }));
+            g.op(format!("show r{}", a));
+            return;
+        }
+        let a = *g.rng.pick(&live);
+        let mut b = *g.rng.pick(&live);
+        if g.rng.chance(1, 2) {
+            for _ in 0..4 {
+                if self.dep[b] != self.dep[a] {
+                    break;
+                }
+                b = *g.rng.pick(&live);
+            }
+        }
+        if g.rng.chance(1, 6) {
+            b = a;
+        }
+        let op = pick_form(g, p, "cmp", &CMP_OPS);
+        let via = pick_form(g, p, &format!("cmp.{}", op), &CMP_FORMS);
+        let pair = match (self.dep[a], self.dep[b]) {
+            (true, true) => "var_var",
+            (true, false) => "var_const",
+            (false, true) => "const_var",
+            (false, false) => "const_const",
+        };
+        g.count(&format!("{}.cmp.pairing.{}", p, pair));
+        if self.tape[a].is_some() && self.tape[b].is_some() && self.tape[a] != self.tape[b] {
+            g.count(&format!("{}.cmp.cross_tape", p));
+        }
+        g.op(format!("cmp {} r{} r{} via={}", op, a, b, via));
+    }
+
     /// Rat only: bound on the bit size of any adjoint when sweeping back from result `y`
     pub fn sweep_bits(&self, y: usize) -> u32 {
         let mut b = vec![0u32; self.len()];
@@ -477,7 +538,8 @@ impl ProgGen {
 /// `emit_derivs(g, st, k)` produces the derivative line(s) for result `k`.
 pub fn gen_program(g: &mut Gen, kind: Kind, prefix: &'static str, header: &str, max_size: usize) {
     let mut st = ProgGen::new(kind, prefix);
-    g.op(header.to_string());
+    let tape_via = pick_form(g, prefix, "tape", &["new", "default"]);
+    g.op(format!("{} via={}", header, tape_via));
     let size = 1 + g.rng.below(max_size);
     g.count(&format!("{}.program.size.{:02}", prefix, (size + 4) / 5 * 5));
     // of 5: share of variables among leaves (one program in 16 has constants only)
@@ -508,6 +570,14 @@ pub fn gen_program(g: &mut Gen, kind: Kind, prefix: &'static str, header: &str, 
         let k = st.len() - 1;
         if g.rng.chance(1, 8) {
             emit_derivs(g, &st, k);
+        }
+        if g.rng.chance(1, 6) {
+            st.emit_observation(g);
+        }
+        if g.rng.chance(1, 20) && st.len() < size {
+            if let Some(l) = st.clone_instr(g, None) {
+                g.op(l);
+            }
         }
     }
     if st.len() > 0 {
@@ -547,6 +617,12 @@ pub fn gen(g: &mut Gen) {
         "derivs r4 via=vec", "derivs r5 via=vec", "derivs r6 via=vec", "derivs r7 via=vec",
         "derivs r8 via=vec", "derivs r9 via=vec", "derivs r10 via=vec", "derivs r1 via=vec",
         "tryderivs r1", "tryderivs r0",
+        // equal numbers at different positions / of different kinds
+        "@ tape fp via=default", "var r0 5 via=record", "const r1 5 via=constant", "var r2 5 via=list",
+        "addn r3 r0 0 via=ref_ref", "clone r4 r3", "cmp eq r0 r1 via=ref", "cmp eq r0 r2 via=val",
+        "cmp ne r0 r3 via=method", "cmp le r3 r1 via=ref", "cmp ge r1 r3 via=val", "cmp lt r0 r2 via=ref",
+        "cmp pcmp r2 r3 via=ref", "cmp eq r4 r3 via=ref", "cmp pcmp r1 r1 via=ref", "show r3", "show r1",
+        "derivs r4 via=vec",
     ] {
         g.op(line.to_string());
     }
@@ -571,6 +647,16 @@ impl<T: Primitive + 'static> TapeBox<T> {
     pub fn new() -> TapeBox<T> {
         TapeBox { ptr: Box::into_raw(Box::new(WengertList::new())) }
     }
+    /// `via=default`: `WengertList::default()` instead of `WengertList::new()`
+    pub fn via(via: &str) -> TapeBox<T> {
+        match via {
+            "default" => TapeBox::from_list(<WengertList<T> as Default>::default()),
+            _ => TapeBox::new(),
+        }
+    }
+    pub fn from_list(list: WengertList<T>) -> TapeBox<T> {
+        TapeBox { ptr: Box::into_raw(Box::new(list)) }
+    }
     pub fn get(&self) -> &'static WengertList<T> {
         unsafe { &*self.ptr }
     }
@@ -583,13 +669,6 @@ impl<T: Primitive + 'static> Drop for TapeBox<T> {
 
 pub type Rc<T> = Record<'static, T>;
 
-/// `Record::unary` / `Record::binary` return a record whose lifetime parameter is tied to the
-/// borrow of `&self` (lifetime elision in their signatures); the tape it points to is the
-/// heap-allocated one of the case, so the lifetime is restored here.
-pub fn extend<'x, T: Primitive>(r: Record<'x, T>) -> Rc<T> {
-    unsafe { std::mem::transmute::<Record<'x, T>, Record<'static, T>>(r) }
-}
-
 pub struct CaseG<T: Numeric + Primitive + 'static> {
     // field order matters: records are dropped before the tapes
     pub recs: Vec<Rc<T>>,
@@ -600,7 +679,10 @@ pub struct CaseG<T: Numeric + Primitive + 'static> {
 
 impl<T: Numeric + Primitive + 'static> CaseG<T> {
     pub fn new(ntapes: usize) -> CaseG<T> {
-        CaseG { recs: vec![], names: Names::new(), vars: vec![], tapes: (0..ntapes).map(|_| TapeBox::new()).collect() }
+        CaseG::new_via(ntapes, "new")
+    }
+    pub fn new_via(ntapes: usize, via: &str) -> CaseG<T> {
+        CaseG { recs: vec![], names: Names::new(), vars: vec![], tapes: (0..ntapes).map(|_| TapeBox::via(via)).collect() }
     }
 }
 
@@ -652,6 +734,7 @@ where
             catch(|| op4!(via, a, b, SwappedOperations::div_swapped))
         }
         "neg" => { let a = rec(toks[2]); catch(|| op2!(via, a, Neg::neg)) }
+        "clone" => { let a = rec(toks[2]); catch(|| Clone::clone(a)) }
         "sum" => {
             let items: Vec<Rc<T>> = split_comma(toks[2]).iter().map(|s| rec(s).clone()).collect();
             catch(|| items.into_iter().sum::<Rc<T>>())
@@ -659,12 +742,12 @@ where
         "unary" => {
             let a = rec(toks[2]);
             let (f, df) = unary_fn::<T>(opt_arg("fn", toks).unwrap());
-            catch(|| extend(a.unary(f, df)))
+            catch(|| a.unary(f, df))
         }
         "binary" => {
             let (a, b) = (rec(toks[2]), rec(toks[3]));
             let (f, dfx, dfy) = binary_fn::<T>(opt_arg("fn", toks).unwrap());
-            catch(|| extend(a.binary(b, f, dfx, dfy)))
+            catch(|| a.binary(b, f, dfx, dfy))
         }
         _ => return None,
     };
@@ -688,6 +771,67 @@ pub fn real_instr(c: &CaseG<Fp>, toks: &[&str]) -> Option<Result<Rc<Fp>, PanicKi
         _ => return None,
     };
     Some(r)
+}
+
+/// `cmp <op> <a> <b> via=ref|val|method` on any type with PartialEq + PartialOrd (records, traces)
+pub fn cmp_answer<V: PartialOrd>(op: &str, via: &str, a: &V, b: &V) -> String {
+    use std::cmp::Ordering;
+    let flag = |x: bool| format!("c={}", x);
+    match (op, via) {
+        ("eq", "val") => flag(*a == *b),
+        ("eq", "method") => flag(PartialEq::eq(a, b)),
+        ("eq", _) => flag(a == b),
+        ("ne", "val") => flag(*a != *b),
+        ("ne", "method") => flag(PartialEq::ne(a, b)),
+        ("ne", _) => flag(a != b),
+        ("lt", "val") => flag(*a < *b),
+        ("lt", "method") => flag(PartialOrd::lt(a, b)),
+        ("lt", _) => flag(a < b),
+        ("le", "val") => flag(*a <= *b),
+        ("le", "method") => flag(PartialOrd::le(a, b)),
+        ("le", _) => flag(a <= b),
+        ("gt", "val") => flag(*a > *b),
+        ("gt", "method") => flag(PartialOrd::gt(a, b)),
+        ("gt", _) => flag(a > b),
+        ("ge", "val") => flag(*a >= *b),
+        ("ge", "method") => flag(PartialOrd::ge(a, b)),
+        ("ge", _) => flag(a >= b),
+        ("pcmp", _) => match a.partial_cmp(b) {
+            Some(Ordering::Less) => "c=less".into(),
+            Some(Ordering::Equal) => "c=equal".into(),
+            Some(Ordering::Greater) => "c=greater".into(),
+            None => "c=none".into(),
+        },
+        _ => "bad-op".into(),
+    }
+}
+
+pub const CMP_OPS: [&str; 7] = ["eq", "ne", "lt", "le", "gt", "ge", "pcmp"];
+pub const CMP_FORMS: [&str; 3] = ["ref", "val", "method"];
+
+/// `cmp` / `show` lines on records
+pub fn observe_line<T>(c: &CaseG<T>, toks: &[&str]) -> Option<String>
+where
+    T: Numeric + Primitive + El,
+{
+    match toks[0] {
+        "cmp" => {
+            let (a, b) = (&c.recs[c.names[toks[2]]], &c.recs[c.names[toks[3]]]);
+            let via = opt_arg("via", toks).unwrap_or("ref");
+            Some(match catch(|| cmp_answer(toks[1], via, a, b)) {
+                Ok(s) => s,
+                Err(k) => panic_str(k),
+            })
+        }
+        "show" => {
+            let a = &c.recs[c.names[toks[1]]];
+            Some(match catch(|| format!("s={}", a)) {
+                Ok(s) => s,
+                Err(k) => panic_str(k),
+            })
+        }
+        _ => None,
+    }
 }
 
 pub fn derivs_line<T>(c: &CaseG<T>, toks: &[&str]) -> String
@@ -768,17 +912,21 @@ impl Runner {
         if toks[0] == "@" {
             // drop the old case (records, then tapes) before the new one is made
             self.case = Case::None;
+            let via = opt_arg("via", toks).unwrap_or("new");
             self.case = match toks.get(2) {
-                Some(&"rat") => Case::Rat(CaseG::new(1)),
-                _ => Case::Fp(CaseG::new(1)),
+                Some(&"rat") => Case::Rat(CaseG::new_via(1, via)),
+                _ => Case::Fp(CaseG::new_via(1, via)),
             };
             return "ok".into();
         }
         match &mut self.case {
             Case::None => "bad-op".into(),
             Case::Fp(c) => {
-                if !refs_ok(&c.names, toks, if toks[0].ends_with("derivs") { 1 } else { 2 }) {
+                if !refs_ok(&c.names, toks, refs_from(toks)) {
                     return "bad-ref".into();
+                }
+                if let Some(ans) = observe_line(c, toks) {
+                    return ans;
                 }
                 if toks[0] == "derivs" || toks[0] == "tryderivs" {
                     return derivs_line::<Fp>(c, toks);
@@ -790,8 +938,11 @@ impl Runner {
                 }
             }
             Case::Rat(c) => {
-                if !refs_ok(&c.names, toks, if toks[0].ends_with("derivs") { 1 } else { 2 }) {
+                if !refs_ok(&c.names, toks, refs_from(toks)) {
                     return "bad-ref".into();
+                }
+                if let Some(ans) = observe_line(c, toks) {
+                    return ans;
                 }
                 if toks[0] == "derivs" || toks[0] == "tryderivs" {
                     return derivs_line::<Rat>(c, toks);
